@@ -97,6 +97,8 @@ func main() {
 		{"recv-instance-disappears-and-returns", recvworld.Cfg{DownloadLimit: 2, DecompressLimit: 2, Instances: []string{"b", "c"}, Single: []string{"c"}, Faults: true, Vanish: true, Republish: true,
 			Script: []string{"dl:c@st.load=fail", "newest-of-c-cleaned"}, Polls: 3}},
 		{"recv-publish-vanish", recvworld.Cfg{DownloadLimit: 2, DecompressLimit: 1, Instances: []string{"b", "c"}, Publish: true, Vanish: true, Polls: ev.Pick(r, 1, 2)}},
+		// a cleaner removes a superseded snapshot while another instance publishes: the listing keeps its length and its last name
+		{"recv-publish-while-older-cleaned", recvworld.Cfg{DownloadLimit: 1, DecompressLimit: 1, Instances: []string{"b", "c"}, Publish: true, CleanOlder: true, Polls: 2}},
 	}
 	if r.Thorough() {
 		runs = append(runs,
@@ -108,7 +110,11 @@ func main() {
 			r.AddPart(&ev.Part{Name: rn.name, Engine: "E3", Exhaustive: false, Bound: "not started: time budget used up"})
 			continue
 		}
-		xrun.Explore(r, rn.name, xrun.Opts{Kind: "recv", Bound: bound, Budget: 40, Recycle: 2, Param: rn.cfg})
+		b := bound
+		if rn.cfg.CleanOlder && !r.Thorough() {
+			b = 1 // the combined environment event alone; preemptions on top of it in the thorough tier
+		}
+		xrun.Explore(r, rn.name, xrun.Opts{Kind: "recv", Bound: b, Budget: 40, Recycle: 2, Param: rn.cfg})
 	}
 	for _, native := range []bool{true, false} {
 		name := map[bool]string{true: "run-once-native", false: "run-once-shadow"}[native]
